@@ -52,8 +52,17 @@ def rand_date(rng):
     return dt.date(rng.randrange(1000, 9999), rng.randrange(1, 13), rng.randrange(1, 29))
 
 
+TZS = [dt.timezone.utc, dt.timezone(dt.timedelta(hours=5, minutes=30)), dt.timezone(dt.timedelta(hours=-8))]
+
+
 def rand_time(rng):
-    return dt.time(rng.randrange(24), rng.randrange(60), rng.randrange(60))
+    t = dt.time(rng.randrange(24), rng.randrange(60), rng.randrange(60))
+    r = rng.random()
+    if r < 0.08:
+        t = t.replace(microsecond=rng.randrange(1, 999999))   # the API drops the sub-second part
+    elif r < 0.16:
+        t = t.replace(tzinfo=rng.choice(TZS))                 # ... and the time zone
+    return t
 
 
 def rand_value(rng, dtype, hostile=0.5):
@@ -75,7 +84,7 @@ def rand_value(rng, dtype, hostile=0.5):
     if dtype == "time":
         return rand_time(rng)
     if dtype == "datetime":
-        return dt.datetime.combine(rand_date(rng), rand_time(rng))
+        return dt.datetime.combine(rand_date(rng), rand_time(rng))  # may carry microseconds / tzinfo
     if dtype.endswith("-tuple"):
         n = int(dtype[:-6])
         pool = ["1", "2.5", "x", "a b", "ä", "-3", "0", "left", "1024", "768"]
@@ -86,7 +95,8 @@ def rand_value(rng, dtype, hostile=0.5):
 
 
 CARDS = [None, (None, 1), (None, 3), (1, None), (2, None), (0, 3), (1, 2), (2, 5), (1, 1), (2, 2),
-         (0, 1), (3, 3)]
+         (0, 1), (3, 3), (2, 10), (9, 10), (5, 12), (10, 100), (None, 12), (11, None), (10, 10), (99, 100),
+         (7, 1000), (0, 10), (20, 100)]
 
 
 def rand_card(rng, p=0.3):
